@@ -19,8 +19,8 @@ def interface():
         return _GEN
     from types import FunctionType
     from krrood.ormatic.alternative_mappings import FunctionMapping
-    cd = ClassDiagram([vmodel.VA, vmodel.VB, vmodel.VC, vmodel.VW, vmodel.VM, vmodel.VN, FunctionType])
-    orm = ORMatic(class_dependency_graph=cd, type_mappings={vmodel.VK: vmodel.VKType, vmodel.jsonmodel.A: JSON, vmodel.jsonmodel2.A: JSON}, alternative_mappings=[vmodel.VMMapping, FunctionMapping])
+    cd = ClassDiagram([vmodel.VA, vmodel.VB, vmodel.VC, vmodel.VW, vmodel.VM, vmodel.VN, vmodel.VX, vmodel.VY, FunctionType])
+    orm = ORMatic(class_dependency_graph=cd, type_mappings={vmodel.VK: vmodel.VKType, vmodel.jsonmodel.A: JSON, vmodel.jsonmodel2.A: JSON}, alternative_mappings=[vmodel.VMMapping, vmodel.VXMapping, FunctionMapping])
     orm.make_all_tables()
     d = tempfile.mkdtemp(prefix="vorm_")
     path = os.path.join(d, "vmodel_orm.py")
